@@ -28,7 +28,7 @@ def _own_scope_nodes(fn: ast.AST):
     return ast.walk(fn)
 
 
-def _rename_in_function(fn: ast.AST) -> int:
+def _rename_in_function(fn: ast.AST, opaque: bool = False) -> int:
     params: Set[str] = set()
     a = fn.args
     for x in a.posonlyargs + a.args + a.kwonlyargs + ([a.vararg] if a.vararg else []) + ([a.kwarg] if a.kwarg else []):
@@ -62,8 +62,9 @@ def _rename_in_function(fn: ast.AST) -> int:
             stored.add(n.name)
     todo = {x for x in stored if x not in excluded and not x.startswith("__")}
     mapping: Dict[str, str] = {}
-    for x in sorted(todo):
-        new = x + SUFFIX
+    for i, x in enumerate(sorted(todo)):
+        # opaque mode: nothing of the original spelling survives (catches substring tests such as `"mask" in name`)
+        new = f"zq{i}" if opaque else x + SUFFIX
         while new in all_names or new in params or new in mapping.values():
             new += "_"
         mapping[x] = new
@@ -77,7 +78,7 @@ def _rename_in_function(fn: ast.AST) -> int:
     return len(mapping)
 
 
-def alpha_rename(src: str) -> Tuple[str, int]:
+def alpha_rename(src: str, opaque: bool = False) -> Tuple[str, int]:
     tree = ast.parse(src)
     count = 0
     done: Set[int] = set()
@@ -86,7 +87,7 @@ def alpha_rename(src: str) -> Tuple[str, int]:
         nonlocal count
         for ch in ast.iter_child_nodes(node):
             if isinstance(ch, (ast.FunctionDef, ast.AsyncFunctionDef)) and not inside_fn:
-                count += _rename_in_function(ch)
+                count += _rename_in_function(ch, opaque)
                 # nested functions were renamed together with their parent
                 visit(ch, True)
             else:
@@ -106,6 +107,14 @@ def _verdict(prop: str, repo: Repo, root: str) -> Counter:
 
 
 def run_alpha(props: List[str], root: str) -> int:
+    worst = 0
+    for opaque in (False, True):
+        worst = max(worst, _run_alpha_mode(props, root, opaque))
+    return worst
+
+
+def _run_alpha_mode(props: List[str], root: str, opaque: bool) -> int:
+    mode = "opaque names zq<i>" if opaque else f"suffix {SUFFIX}"
     overrides: Dict[str, str] = {}
     renamed = 0
     base_repo = Repo(root)
@@ -113,39 +122,36 @@ def run_alpha(props: List[str], root: str) -> int:
         path = os.path.join(root, m.rel)
         src = open(path).read()
         try:
-            new, k = alpha_rename(src)
+            new, k = alpha_rename(src, opaque)
         except SyntaxError:
             continue
         if k:
             overrides[m.rel] = new
             renamed += k
-    print(f"alpha-rename: {renamed} local variables renamed in {len(overrides)} modules")
+    print(f"alpha-rename ({mode}): {renamed} local variables renamed in {len(overrides)} modules")
     worst = 0
     for p in props:
-        from . import pat
-        pat.reset()
         try:
             base, nb = _verdict(p, Repo(root), root)
         except AnalysisError as e:
-            print(f"[{p}] alpha: baseline analysis error: {e}")
+            print(f"[{p}] alpha ({mode}): baseline analysis error: {e}")
             worst = 2
             continue
-        pat.reset()
         try:
             now, nn = _verdict(p, Repo(root, overrides=dict(overrides)), root)
         except AnalysisError as e:
-            print(f"[{p}] alpha: FAILED — analysis error on the renamed tree: {e}")
+            print(f"[{p}] alpha ({mode}): FAILED — analysis error on the renamed tree: {e}")
             worst = 2
             continue
         except Exception as e:
-            print(f"[{p}] alpha: FAILED — internal error on the renamed tree: {type(e).__name__}: {e}")
+            print(f"[{p}] alpha ({mode}): FAILED — internal error on the renamed tree: {type(e).__name__}: {e}")
             worst = 2
             continue
         extra = now - base
         missing = base - now
         if extra or missing or nn != nb:
             worst = 2
-            print(f"[{p}] alpha: FAILED — verdict changed under consistent renaming of locals (obligations {nb} -> {nn})")
+            print(f"[{p}] alpha ({mode}): FAILED — verdict changed under consistent renaming of locals (obligations {nb} -> {nn})")
             for k, v in sorted(extra.items()):
                 print(f"    false alarm x{v}: {k}")
                 if os.environ.get("ALPHA_VERBOSE"):
@@ -154,5 +160,5 @@ def run_alpha(props: List[str], root: str) -> int:
             for k, v in sorted(missing.items()):
                 print(f"    lost report x{v}: {k}")
         else:
-            print(f"[{p}] alpha: ok — {nb} obligations, same verdict on the renamed tree")
+            print(f"[{p}] alpha ({mode}): ok — {nb} obligations, same verdict on the renamed tree")
     return worst
